@@ -1,4 +1,5 @@
 (* Extraction of the executable model and specification of C04 (ExtrOcamlBasic only). *)
 From MptV Require Import Base.Mem C04.ArrayModel C04.ArraySpec.
 Require Import ExtrOcamlBasic.
-Extraction "c04_model.ml" run srun init abs invb view hget alloc_size.
+Extraction "c04_model.ml" run srun step init abs invb view hget alloc_size
+  target accepted svec elem_at offset_of unused_of map_get map_values.
